@@ -5,6 +5,9 @@ R20.2 piecewise structure of both classes (split at sqrt|x|, same limits, own in
 R20.3 one-loop thermal sum T^4/(2 pi^2) [sum n_B Re Jb + sum n_F Re Jf]; Coleman-Weinberg term; fermion sign
 R20.4 lint of the shipped interpolation tables (data artefact, no code run): layout, monotone uniform abscissae, range,
       finiteness, zero imaginary part for x >= 0, local smoothness, value at 0, large-x asymptote; ini / file names / reader agree
+
+The path analyses of R20.2 / R20.3 read a conditional expression as the if / else it abbreviates (`_ifexp_as_branch`), and a flag / test that a
+path has already branched on keeps its outcome on that path (`_PathEx`): `x = a if t else b` twice is two paths, like one `if t:` block.
 """
 from __future__ import annotations
 
@@ -17,7 +20,7 @@ from ..core import AnchorMissing, Check, Undecided, calls_in, dotted, kwarg, own
 from ..flow import CFG
 from ..hydro import n
 from ..nf import Ctx, eqx, has, parse_pattern, same
-from ..terms import Extractor, SUM, is_zero
+from ..terms import Extractor, Guard, SUM, is_zero
 
 LEVEL = "other"
 IN = "PotentialTools.integrals"
@@ -121,7 +124,7 @@ def _wrapper_structure(S, f_impl, cls: str) -> dict:
     wrs = [f for f in S.modules[f_impl.module].funcs.values() if f.parent is f_impl and calls_in(f.node, "_integrator")]
     if len(wrs) != 1:
         raise AnchorMissing(f"{f_impl.qual}: the nested per-point function calling _integrator not found")
-    wr = wrs[0]
+    wr = _ifexp_as_branch(wrs[0])      # `v = a if t else b` is the branch `if t: v = a` / `else: v = b`
     prm = [a_.arg for a_ in wr.node.args.args]
     if len(prm) != 1:
         raise AnchorMissing(f"{wr.qual}: expected one parameter")
@@ -184,6 +187,7 @@ def _wrapper_structure(S, f_impl, cls: str) -> dict:
     if not rets:
         raise AnchorMissing(f"{wr.qual}: no return")
     ok_ret = True
+    seen: set = set()      # one definition reaching several returns (a return written once per branch) is one fact
     for r in rets:
         parts = _complex_parts(r.value, cx) if r.value is not None else None
         if parts is None:
@@ -192,6 +196,9 @@ def _wrapper_structure(S, f_impl, cls: str) -> dict:
         for label, e in zip(("resReal", "resImag"), parts):
             if isinstance(e, ast.Name) and e.id != XW:
                 for d in g.reaching_defs(r, e.id):
+                    if d is not CFG.ENTRY and (id(d), label) in seen:
+                        continue
+                    seen.add((id(d), label))
                     if d is CFG.ENTRY or not isinstance(d, ast.Assign) or len(d.targets) != 1:
                         out.setdefault((None, label), []).append("undefined on some path")
                         continue
@@ -265,6 +272,116 @@ def _axis_by_keyword(fi):
     return FuncInfo(fi.module, fi.qual, node, fi.cls, fi.parent)
 
 
+_SIMPLE_STMTS = (ast.Assign, ast.AnnAssign, ast.AugAssign, ast.Return, ast.Expr)
+
+
+def _first_ifexp(st):
+    """the outermost, left-most conditional expression evaluated by the simple statement `st` itself (not one inside a lambda / comprehension,
+    whose test may read names bound there)"""
+    stack = [st]
+    while stack:
+        x = stack.pop(0)
+        if isinstance(x, ast.IfExp):
+            return x
+        if isinstance(x, (ast.Lambda, ast.ListComp, ast.SetComp, ast.DictComp, ast.GeneratorExp, ast.NamedExpr)):
+            continue
+        stack.extend(ast.iter_child_nodes(x))
+    return None
+
+
+def _ifexp_as_branch(fi, limit: int = 64):
+    """copy of a function in which a conditional expression is the two-way branch it abbreviates:
+    `x = f(a if t else b)`  ->  `if t: x = f(a)` / `else: x = f(b)`        (assignments, augmented assignments, returns, expression statements;
+    the expressions of this code are pure, so evaluating the test first changes nothing).  The path analyses (term extractor, CFG) then see the
+    same two paths as for the if / else statement; fi itself when it has no conditional expression"""
+    import copy
+    from ..core import FuncInfo
+    budget = [limit]
+
+    def split(st):
+        # (only the value of an assignment is looked at: a conditional expression inside its target is left alone)
+        x = _first_ifexp(st.value) if isinstance(st, _SIMPLE_STMTS) and st.value is not None else None
+        if x is None or budget[0] <= 0:
+            return st
+        budget[0] -= 1
+        arms = []
+        for pick in ("body", "orelse"):
+            x._pick = pick
+            try:
+                new = copy.deepcopy(st)
+            finally:
+                del x._pick
+
+            class Take(ast.NodeTransformer):
+                def generic_visit(self, y):
+                    p = getattr(y, "_pick", None)
+                    if p is not None:
+                        del y._pick
+                        return getattr(y, p)
+                    return super().generic_visit(y)
+            arms.append(split(Take().visit(new)))
+        br = ast.If(test=copy.deepcopy(x.test), body=[arms[0]], orelse=[arms[1]])
+        return ast.copy_location(br, st)
+
+    def block(stmts):
+        out = []
+        for st in stmts:
+            if isinstance(st, (ast.FunctionDef, ast.AsyncFunctionDef, ast.ClassDef)):
+                out.append(st)
+                continue
+            for fld in ("body", "orelse", "finalbody"):
+                b = getattr(st, fld, None)
+                if isinstance(b, list) and b and isinstance(b[0], ast.stmt):
+                    setattr(st, fld, block(b))
+            for h in getattr(st, "handlers", []) or []:
+                h.body = block(h.body)
+            out.append(split(st))
+        return out
+
+    if not any(isinstance(x, ast.IfExp) for x in own_nodes(fi.node)):
+        return fi
+    node = copy.deepcopy(fi.node)
+    node.body = block(node.body)
+    ast.fix_missing_locations(node)
+    return FuncInfo(fi.module, fi.qual, node, fi.cls, fi.parent)
+
+
+_TEXT_NAMED = ("is_", "cmp_", "cond", "isscalar_", "idx_")
+
+
+class _PathEx(Extractor):
+    """terms.Extractor in which a value has one truth value per path: an `if` whose test evaluates to a term the current path has already branched
+    on takes the same branch again (two conditional expressions / two `if`s on the same flag do not produce the mixed paths that no execution takes).
+    Only for tests that are terms of the function's inputs; a test the extractor merely names after its source text is branched on as before."""
+
+    def stmt(self, st, env, guards, depth):
+        if isinstance(st, ast.If):
+            t, flip = st.test, False
+            while isinstance(t, ast.UnaryOp) and isinstance(t.op, ast.Not):      # `if not flag` tests the value of `flag`
+                t, flip = t.operand, not flip
+            c = self.cond(t, env, depth)
+            if isinstance(c, sp.Basic) and not isinstance(c, sp.logic.boolalg.BooleanAtom) \
+                    and not any(s_.name.startswith(_TEXT_NAMED) for s_ in c.free_symbols):
+                for g in guards:
+                    if isinstance(g.term, sp.Basic) and g.term == c:
+                        return self.block(st.body if g.polarity != flip else st.orelse, env, guards, depth)
+                if flip:      # the guard remembers the value tested, without the `not`s
+                    return self.block(st.body, env, guards + [Guard(t, False, c)], depth) + self.block(st.orelse, env, guards + [Guard(t, True, c)], depth)
+        return super().stmt(st, env, guards, depth)
+
+
+def _asserts_option(g, member: str) -> bool:
+    """the guard says that the option tested is the enum member `member`: `opt == E.member` taken, or `opt != E.member` / `not opt == E.member`
+    not taken (also `is` / `is not`); any other test that mentions the member counts when it is taken (as before)"""
+    t, pol = g.node, bool(g.polarity)
+    while isinstance(t, ast.UnaryOp) and isinstance(t.op, ast.Not):
+        t, pol = t.operand, not pol
+    if isinstance(t, ast.Compare) and len(t.ops) == 1 and isinstance(t.ops[0], (ast.Eq, ast.NotEq, ast.Is, ast.IsNot)):
+        if any(isinstance(s_, ast.Attribute) and s_.attr == member for s_ in (t.left, t.comparators[0])):
+            return pol == isinstance(t.ops[0], (ast.Eq, ast.Is))
+    return bool(g.polarity) and member in g.text()
+
+
 def _variants(ex, v, cands) -> bool:
     for w in cands:
         if v == w:
@@ -286,8 +403,8 @@ def r20_3(chk: Check):
     chk.touch(ft.name)
     # term level: the value returned on every path, as a function of the parameters (bosons, fermions, temperature); names of
     # locals, temporaries, the order of the accumulation and the shape of the control flow do not enter
-    exk = Extractor(S, positive={"temperature"}, keep_regularisers=True)
-    ps = [p for p in exk.paths(_axis_by_keyword(ft)) if p.raised is None]
+    exk = _PathEx(S, positive={"temperature"}, keep_regularisers=True)
+    ps = [p for p in exk.paths(_axis_by_keyword(_ifexp_as_branch(ft))) if p.raised is None]
     vals = [p.value for p in ps]
     if not vals or not all(isinstance(v, sp.Basic) for v in vals):
         raise Undecided("potentialOneLoopThermal: a return value is not a term")
@@ -307,7 +424,7 @@ def r20_3(chk: Check):
     chk.ob("R20.3", ft.where(), "V_T = T^4/(2 pi^2) [sum_particles n_B Re Jb + sum_particles n_F Re Jf] (real parts = element 0, sum over the particle axis) "
            "on every returning path (up to the documented |.| options for the imaginary part)", okv, str(vals[0])[:200], key="thermal-sum")
     # the option that takes |m^2| must do so where it matters: on every path taken under ABS_ARGUMENT the integrals are evaluated at |m^2|/T^2
-    abs_paths = [p for p in ps if any(g.polarity and "ABS_ARGUMENT" in g.text() for g in p.guards)]
+    abs_paths = [p for p in ps if any(_asserts_option(g, "ABS_ARGUMENT") for g in p.guards)]
     oka_ = bool(abs_paths) and all(_variants(exk, p.value, [absm, sp.Abs(absm)]) for p in abs_paths)
     chk.ob("R20.3", ft.where(), "under EImaginaryOption.ABS_ARGUMENT the thermal integrals are evaluated at |m^2| / T^2 (the replacement happens before "
            "the arguments are formed)", oka_, f"{len(abs_paths)} path(s) under ABS_ARGUMENT", key="abs-argument-path")
@@ -351,8 +468,8 @@ def r20_3(chk: Check):
     chk.ob("R20.3", fj.where(), "jCW == n m^4 (log(m^2/mu^2) - c)/(64 pi^2)", ok, how, key="jCW", how=how)
     fo = S.func(f"{EP}.potentialOneLoop")
     chk.touch(fo.name)
-    ex1 = Extractor(S)
-    vals = [p.value for p in ex1.paths(_axis_by_keyword(fo)) if p.raised is None]
+    ex1 = _PathEx(S)
+    vals = [p.value for p in ex1.paths(_axis_by_keyword(_ifexp_as_branch(fo))) if p.raised is None]
     if not vals or not all(isinstance(v_, sp.Basic) for v_ in vals):
         raise Undecided("potentialOneLoop: a return value is not a term")
     b_, f_ = [ex1.sym(f"bosons[{i}]") for i in range(4)], [ex1.sym(f"fermions[{i}]") for i in range(4)]
